@@ -21,9 +21,10 @@ EXPLANATION = (
     'only on identity (never on equality); (e) batched list updates are '
     'applied in descending KeyPath order; (f) every read view of a Dict (iter, '
     'keys, values, items) is derived from one key iteration that yields each '
-    'stored key once.  Agreement of results with CPython '
+    'stored key once; (g) sort/reverse are the builtin operations with the '
+    'caller\'s arguments and batched Dict updates keep the caller\'s order.  Agreement of results with CPython '
     'over operation histories is differential by nature and not decided.')
-FLOORS = {'C02.a': 1, 'C02.b': 2, 'C02.c': 2, 'C02.d': 2, 'C02.e': 1, 'C02.f': 4}
+FLOORS = {'C02.a': 1, 'C02.b': 2, 'C02.c': 2, 'C02.d': 2, 'C02.e': 1, 'C02.f': 4, 'C02.g': 2}
 FILES = ['pyglove/core/symbolic/list.py', 'pyglove/core/symbolic/dict.py',
          'pyglove/core/symbolic/base.py']
 
@@ -347,6 +348,53 @@ def rule_f(ctx):
          'List.__iter__ no longer visits range(len(self)) in order')
 
 
+def rule_g(ctx):
+  """Ordering operations keep list semantics: sort is ONE call of a builtin
+  sort that receives the caller's key and reverse (a stable reverse sort is
+  not sort + reverse), reverse is the builtin reverse; a batched Dict update
+  is applied in the caller's order (new keys appear in that order)."""
+  idx = ctx.index
+  f = idx.lookup_method(S.LIST, 'sort')
+  problems = []
+  sorts = [c for c in A.calls_in(f.node) if c08._raw_of_call(idx, f, c) == 'list.sort'
+           or A.call_name(c) == 'sorted']
+  if len(sorts) != 1:
+    problems.append(f'{len(sorts)} sorting calls (expected exactly one builtin sort)')
+  else:
+    c = sorts[0]
+    for kw in ('key', 'reverse'):
+      v = A.kwarg(c, kw)
+      if not (isinstance(v, ast.Name) and v.id == kw):
+        problems.append(f'`{kw}` is not handed to the builtin sort (Python sorts stably in BOTH directions; '
+                        f'sorting ascending and reversing afterwards flips equal elements)')
+    # the parameters are used nowhere else
+    for kw in ('key', 'reverse'):
+      uses = [n for n in ast.walk(f.node) if isinstance(n, ast.Name) and n.id == kw and isinstance(n.ctx, ast.Load)]
+      if len(uses) > 1:
+        problems.append(f'`{kw}` is also used outside the builtin sort call')
+  ctx.ob('C02.g', f.fq, not problems, 'sort(key, reverse) is one builtin sort receiving both arguments', f.loc,
+         '; '.join(problems))
+  f = idx.lookup_method(S.LIST, 'reverse')
+  ok = any(c08._raw_of_call(idx, f, c) == 'list.reverse' for c in A.calls_in(f.node))
+  ctx.ob('C02.g', f.fq, ok, 'reverse() is the builtin in-place reverse', f.loc, 'no raw list.reverse call')
+  f = idx.lookup_method(S.DICT, '_sym_rebind')
+  loops = [n for n in ast.walk(f.node) if isinstance(n, ast.For)]
+  problems = []
+  if not loops:
+    problems.append('no loop over the updates')
+  for lp in loops:
+    it = lp.iter
+    while isinstance(it, ast.Call) and (A.call_name(it) or '') in ('list', 'tuple') and it.args:
+      it = it.args[0]
+    reorder = [c for c in A.calls_in(lp.iter) if (A.call_name(c) or '') in ('sorted', 'reversed')]
+    if reorder:
+      problems.append(f'updates are applied in `{A.unparse(lp.iter, 80)}` order, not the caller\'s: new keys are '
+                      f'inserted in a different order than dict.update would')
+  ctx.ob('C02.g', f.fq, not problems,
+         'a batched Dict update is applied in the caller\'s order (insertion order of new keys as for dict)',
+         f.loc, '; '.join(problems))
+
+
 def run(ctx):
   ctx.consult(*FILES)
   rule_a(ctx)
@@ -355,4 +403,5 @@ def run(ctx):
   rule_d(ctx)
   rule_e(ctx)
   rule_f(ctx)
+  rule_g(ctx)
   ctx.assume('contents, order, return values and slice assignment semantics are not decided (differential)')
